@@ -170,6 +170,9 @@ Definition parse_desc (s : bytes) : option idesc :=
 
 (* the description must be one the emitter can turn into a compiling program (props/ifacegen.py) *)
 Definition desc_ok (d : idesc) : bool :=
+  (* `-> (u32, String)` IS the tuple output: OSingle TR is not a Rust program; tuples cannot be property types *)
+  forallb (fun m => match md_out m with OSingle TR => false | _ => true end) (id_methods d) &&
+  forallb (fun p => match pd_ty p with TR | TL | TP => false | _ => true end) (id_props d) &&
   C10.Model.validate_interface (id_name d) &&
   nodupb (map md_name (id_methods d) ++ map sd_name (id_signals d) ++ map pd_name (id_props d)) &&
   forallb (fun m => C10.Model.validate_member (md_name m)) (id_methods d) &&
